@@ -86,6 +86,26 @@ Proof.
     + rewrite V. apply Rle_lt_trans with (1 := Bq). apply bpow_lt. lia.
 Qed.
 
+(* the altitude index is defined for every finite altitude of the theorem domain, inside the class too *)
+Lemma f_f_defined (alt : pfloat) (v : Z) : 0 <= v <= 35 -> ffin alt = true -> (Rabs (fval alt) <= bpow radix2 40)%R ->
+  exists f, f_f alt v = Some f.
+Proof.
+  intros Hv Fa Hb. unfold f_f. destruct (res_val v Hv) as [Rv Rf].
+  set (res := (pow2f 25 / pow2f v)%float) in *.
+  assert (Ediv : (fval alt / bpow radix2 (25 - v) = fval alt * bpow radix2 (v - 25))%R).
+  { unfold Rdiv. rewrite <- bpow_opp. f_equal. f_equal. lia. }
+  assert (Bq : (Rabs (fval alt * bpow radix2 (v - 25)) <= bpow radix2 50)%R).
+  { rewrite Rabs_mult, (Rabs_pos_eq (bpow radix2 (v - 25))) by apply bpow_ge_0.
+    replace 50 with (40 + 10) by lia. rewrite bpow_plus.
+    apply Rmult_le_compat; [apply Rabs_pos | apply bpow_ge_0 | exact Hb | apply bpow_le; lia]. }
+  assert (Br : (Rabs (rnd (fval alt * bpow radix2 (v - 25))) <= bpow radix2 50)%R) by (apply rnd_abs_le; [lia | exact Bq]).
+  destruct (div_val alt res Fa) as [V F].
+  - rewrite Rv. apply Rgt_not_eq, bpow_gt_0.
+  - rewrite Rv, Ediv. apply Rle_lt_trans with (1 := Br). apply bpow_lt. lia.
+  - rewrite Rv, Ediv in V. eexists. apply Ztrunc_ffloor; [exact F|].
+    rewrite V. apply Rle_lt_trans with (1 := Br). apply bpow_lt. lia.
+Qed.
+
 (* the class is not empty and the statement is false on it: the smallest negative denormal at vertical zoom 0 gives 0, the floor is -1 *)
 Definition alt_witness : pfloat := (-0x1p-1074)%float.
 Lemma alt_witness_val : fval alt_witness = (- bpow radix2 (-1074))%R /\ ffin alt_witness = true.
